@@ -184,7 +184,7 @@ fn is_canonical_atom(f: &mut Cursor<&[u8]>, first_byte: u8) -> bool {
         2 => 1 << 6,
         3 => 1 << (5 + 8),
         4 => 1 << (4 + 8 + 8),
-        5 => 1 << (4 + 8 + 8 + 8),
+        5 => 1 << (3 + 8 + 8 + 8),
         6 => 1 << (4 + 8 + 8 + 8 + 8),
         _ => panic!("unexpected atom length prefix {prefix_len}"),
     };
